@@ -11,15 +11,15 @@ import (
 // (true = the generator avoids the construct; see DESIGN.md §4).
 type Config struct {
 	Entries, Helpers, Structs int
-	MaxStmts, MaxDepth       int
+	MaxStmts, MaxDepth        int
 
-	NoIncDecNarrow  bool // T1: x++/x-- only on uint64 variables
-	NoLoopVarReuse  bool // T7: loop variable names are fresh in the function
-	NoBareBlocks    bool // T8: no non-tail { … } blocks
-	NoPtrNilAssign  bool // T9: never assign nil to a pointer variable
-	NoMachine       bool // do not import the machine package (faster type-check)
-	NoClosures      bool
-	NoShadowing     bool
+	NoIncDecNarrow bool // T1: x++/x-- only on uint64 variables
+	NoLoopVarReuse bool // T7: loop variable names are fresh in the function
+	NoBareBlocks   bool // T8: no non-tail { … } blocks
+	NoPtrNilAssign bool // T9: never assign nil to a pointer variable
+	NoMachine      bool // do not import the machine package (faster type-check)
+	NoClosures     bool
+	NoShadowing    bool
 }
 
 // DefaultConfig is the C01 configuration: all known findings excluded.
@@ -63,9 +63,9 @@ func (s *scope) lookup(name string) *Var {
 type usage int
 
 const (
-	uLocal usage = iota // no control transfer allowed
-	uReturn             // tail of a function body: must end by returning (if the function has results)
-	uLoop               // tail of a loop body: break/continue available
+	uLocal  usage = iota // no control transfer allowed
+	uReturn              // tail of a function body: must end by returning (if the function has results)
+	uLoop                // tail of a loop body: break/continue available
 )
 
 type fnCtx struct {
